@@ -58,6 +58,12 @@ theorem witness_step {s s' : ASt} (a : AAct) (hl : s.loop = some 0) (hna : ∀ i
           · simp at hs; subst hs; exact ⟨rfl, rfl⟩
           · simp at hs
 
+/-- the property quantifies over stalled connections holding less unread data than the multiplexer's shared
+    4 MiB receive buffer: both ends of the current code give the multiplexer at least that much (a smaller
+    buffer lets one stalled reader freeze every other logical connection sooner than the property allows) -/
+theorem C02_receive_buffer_as_quantified :
+    4194304 ≤ Gen.smuxRecvBufServer ∧ 4194304 ≤ Gen.smuxRecvBufClient := by decide
+
 /-- **witness_hol**: with an inline handler (the code before the repair), one idle logical connection
     keeps a second one pending forever — in every schedule (arrivals of further connections aside). -/
 theorem C02_witness_hol (acts : List AAct) (hna : ∀ a ∈ acts, ∀ id, a ≠ .arrive id) :
@@ -88,4 +94,5 @@ end SA.Accept
 
 #print axioms SA.Accept.C02_independent_if_spawned
 #print axioms SA.Accept.C02_stream_handler_spawned
+#print axioms SA.Accept.C02_receive_buffer_as_quantified
 #print axioms SA.Accept.C02_witness_hol
